@@ -93,6 +93,7 @@ def run(ctx):
     F = ctx.facts()
     positive_control(R)
     c13.rule_feeds(F, R, "C20")
+    c13.rule_skip(F, R)      # only a verdict on the entry just yielded may skip a directory (C13.skip)
     rule_next(F, R)
     rule_walker_err(F, R)
     rule_map(F, R)
@@ -160,11 +161,18 @@ def rule_next(F, R):
     def run():
         me = W.walk_tree(F, I, is_dir=True)
         return I.call_item(item, [Ref(Place(Cell(me)))])
-    for c in I.explore(run):
+    cases = I.explore(run)
+    for c in cases:
         inner = c13._unwrap(c.result, ["Some", "Err"])
         R.check(isinstance(inner, Sym) and inner.name == "WalkError::from(error)", "C20.forward", "WalkTree::next/err",
                 "an Err from walkdir is yielded as Err(WalkError::from(error))", item.where(),
                 fail_msg="WalkTree::next turns a walkdir error into %r" % (c.result,))
+    # a fault is isolated: reporting it skips nothing (walkdir goes on with the remaining entries by itself)
+    skips = [c for c in cases if any(ev[0] == "ext" and ev[1] == c13.SKIP for ev in c.log)]
+    R.check(not skips, "C20.forward", "WalkTree::next/err/no-skip", "an error item does not make the walk skip a directory", item.where(),
+            fail_msg="WalkTree::next calls walkdir's skip_current_dir when it reports an error (%s): the rest of the directory that was being read - "
+                     "later siblings of a dangling link, and the faults inside them - is lost" % ", ".join(
+                         "%s=%s" % (d[0], d[3]) for d in (skips[0].decisions if skips else [])))
 
 
 def upvars(F, item):
